@@ -31,8 +31,15 @@ CLAUSE_PROPERTY = {
     "PolicyBeforeWarmup": "C13", "ExploreOnlyInWarmup": "C13",
     "FrozenComponentChanged": "C05", "StoringChangesNothing": "C05", "ActingChangesNothing": "C05", "TrainedOnlyWhenDue": "C05",
     "UpdateMissing": "C05", "ChangeOutsideLearning": "C05",
-    "HardCopyIsCopy": "C06", "TargetLawInRun": "C06", "CopyGroupIncomplete": "C06", "TargetsOnlyAtUpdatePoints": "C06", "TargetUpdateMissing": "C06", "TargetChangeOutsideLearning": "C06",
+    "HardCopyIsCopy": "C06", "TargetLawInRun": "C06", "CopyGroupIncomplete": "C06", # a target / frozen copy changing where no update of it is due means some update routine changed a component it
+    # does not train (C05) and the target did not follow its cadence (C06)
+    "TargetsOnlyAtUpdatePoints": ("C05", "C06"), "TargetUpdateMissing": "C06", "TargetChangeOutsideLearning": ("C05", "C06"),
 }
+
+
+def _serves(clause, pid):
+    p = CLAUSE_PROPERTY.get(clause)
+    return p == pid or (isinstance(p, tuple) and pid in p)
 
 
 def repo_root():
@@ -191,7 +198,7 @@ def report_property(rep, pid, tier=None, seed=None, names=None):
         pr["episodes"] += v["episodes"]
         pr["update_events"] += v["updates"]
         for pos, clause in v["viol"]:
-            if CLAUSE_PROPERTY.get(clause) != pid:
+            if not _serves(clause, pid):
                 continue
             ev = t["events"][pos - 1]
             rep.violation(f"{rname}:{clause}", f"{t['id']} event {pos} ({ev.get('ev')}): clause {clause} fails: { {k: ev[k] for k in ev if k not in ('ver',)} }"[:600],
@@ -216,7 +223,7 @@ def replay_one(replay, pid):
     t["id"] = f"{replay['routine']}:{replay['scenario'].get('label', '')}"
     out, r, norm = loopbind.validate([t])
     v = out[t["id"]]
-    bad = sorted(set(c for _, c in v["viol"] if CLAUSE_PROPERTY.get(c) == pid))
+    bad = sorted(set(c for _, c in v["viol"] if _serves(c, pid)))
     print(t["id"], "executed", v["executed"], "clauses failing for", pid, ":", bad, "error:", t.get("error"))
     return 1 if bad or (t.get("error") and replay.get("clause") in ("RunAway", "raised")) else 0
 
